@@ -97,8 +97,10 @@ impl Property for C02 {
                 return Outcome::fail(pin(format!("accepted program raises {exc}: {}", vkit::panics::norm_msg(&r.msg))), json!({"erg": src, "run": r.summary()}));
             }
             if in_runtime_lib && is_raise {
+                // the recorded family needs a loop body; a straight-line program is another matter
+                let ctx = if src.contains("for! ") || src.contains("while! ") { "inside a loop" } else { "straight-line code" };
                 return Outcome::fail(
-                    pin(format!("accepted program violates a runtime class constraint: {exc}: {}", vkit::panics::norm_msg(&r.msg))),
+                    pin(format!("accepted program violates a runtime class constraint ({ctx}): {exc}: {}", vkit::panics::norm_msg(&r.msg))),
                     json!({"erg": src, "run": r.summary()}),
                 );
             }
